@@ -213,6 +213,36 @@ fn gen_bed(w: &World) -> (Vec<BedModel>, usize) {
                 }
             }
         }
+        if w.chance(1, 10) {
+            // content that echoes another column, or the customary BED12 vocabulary
+            w.probe("echoed_or_customary_content");
+            match w.draw(6) {
+                0 if k >= 1 => m.aux[0] = m.chrom.clone(),
+                1 if k >= 2 => m.aux[1] = m.start.to_string(),
+                2 if k >= 1 => m.aux[0] = m.end.to_string(),
+                3 => {
+                    let bed12 = [
+                        "uc001aaa.3".to_string(),
+                        (*w.pick(&["0", "1000", "960", "500"])).to_string(),
+                        (*w.pick(&["+", "-", "."])).to_string(),
+                        m.start.to_string(),
+                        m.end.to_string(),
+                        (*w.pick(&["255,0,0", "0", "0,0,0"])).to_string(),
+                        (*w.pick(&["2", "1", "3"])).to_string(),
+                        (*w.pick(&["567,488,", "10,20", "1"])).to_string(),
+                        (*w.pick(&["0,3512", "0,30,", "0"])).to_string(),
+                    ];
+                    for (i, x) in bed12.into_iter().enumerate().take(k) {
+                        m.aux[i] = x;
+                    }
+                }
+                4 => {
+                    m.start = *w.pick(&[4294967295u64, 4294967296, 4294967297, 2147483647, 2147483648, 9007199254740993, 9223372036854775807, 9223372036854775808]);
+                    m.end = m.start.saturating_add(w.draw(3));
+                }
+                _ => m.start = m.end.wrapping_add(1),
+            }
+        }
         v.push(m);
     }
     (v, k)
@@ -414,10 +444,61 @@ fn gen_gff(w: &World, d: Dialect) -> Vec<GffModel> {
                 }
             }
         }
+        if w.chance(1, 10) {
+            // content that echoes another column of the same line, or a customary vocabulary: code
+            // that special-cases "score equals start", a value equal to the sequence name or a
+            // Sequence Ontology term is reached on purpose rather than by luck
+            w.probe("echoed_or_customary_content");
+            let ok = |s: &str| !s.is_empty() && !s.starts_with(' ') && s.chars().all(|c| attr_chars(d).contains(&c));
+            let nattrs = m.attrs.len() as u64;
+            match w.draw(8) {
+                0 => m.score = m.start.to_string(),
+                1 => m.score = m.end.to_string(),
+                2 => m.feature = (*if w.chance(1, 2) { w.pick(&SO_TERMS) } else { w.pick(&GTF_TERMS) }).to_string(),
+                3 if nattrs > 0 => {
+                    let src = match w.draw(4) {
+                        0 => m.seqname.clone(),
+                        1 => m.feature.clone(),
+                        2 => m.start.to_string(),
+                        _ => m.source.clone(),
+                    };
+                    if ok(&src) {
+                        let (_, vals) = &mut m.attrs[w.draw(nattrs) as usize];
+                        let at = w.draw(vals.len() as u64) as usize;
+                        vals[at] = src;
+                    }
+                }
+                4 => {
+                    m.source = (*w.pick(&["ensembl", "havana", "RefSeq", "GenBank", "."])).to_string();
+                    m.feature = (*w.pick(&SO_TERMS)).to_string();
+                }
+                5 => m.start = m.end.wrapping_add(1), // the empty interval of 1-based closed coordinates
+                6 => {
+                    m.start = *w.pick(&[4294967295u64, 4294967296, 4294967297, 2147483647, 2147483648, 9007199254740993, 9223372036854775807, 9223372036854775808]);
+                    m.end = m.start.saturating_add(w.draw(3));
+                }
+                _ => m.strand = m.score.clone(),
+            }
+        }
         v.push(m);
     }
     v
 }
+
+/// Comment lines (after the leading '#') that carry meaning for other tools: version pragmas,
+/// sequence regions, the FASTA and forward-reference directives, track and browser lines.
+const PRAGMAS: [&str; 16] = [
+    "#gff-version 3", "#gff-version 2", "#gff-version 3.1.26", "#gff-version 2.2", "#gtf-version 2.2", "#sequence-region chr1 1 1000", "##", "#FASTA",
+    "#species x", "!genome-build GRCh38", "track name=x", "browser position chr1:1-10", "#gff-version\t3", "#gff-version", " gff-version 2", "#date 2020-01-01",
+];
+
+/// Feature types of the Sequence Ontology as used by GFF3/GTF producers.
+const SO_TERMS: [&str; 14] = [
+    "gene", "mRNA", "exon", "CDS", "five_prime_UTR", "three_prime_UTR", "start_codon", "stop_codon", "region", "transcript", "intron", "ncRNA_gene",
+    "Selenocysteine", "biological_region",
+];
+/// Feature names of GTF2.2 and of older GFF producers.
+const GTF_TERMS: [&str; 8] = ["5UTR", "3UTR", "inter", "inter_CNS", "intron_CNS", "UTR", "Exon", "cds"];
 
 /// Build a MultiMap whose iteration order over keys is `order` (indices into `attrs`): the one
 /// nondeterministic order in this code path, owned by the simulator through rejection sampling
@@ -868,7 +949,13 @@ fn roundtrip(w: &W, fmt: Fmt) -> Verdict {
             let k = w.draw(3);
             for _ in 0..k {
                 out.push(b'#');
-                out.extend_from_slice(string_from(w, &COMMENT_CHARS, 0, 10).as_bytes());
+                if w.chance(1, 4) {
+                    // pragmas and directives as real files carry them: still comments to these readers
+                    out.extend_from_slice(w.pick(&PRAGMAS).as_bytes());
+                    w.probe("pragma_comment_line");
+                } else {
+                    out.extend_from_slice(string_from(w, &COMMENT_CHARS, 0, 10).as_bytes());
+                }
                 out.push(b'\n');
                 inserted += 1;
             }
